@@ -122,6 +122,10 @@ pub fn gen_scenario(rng: &mut Rng, prop: &str) -> Scenario {
         // header and question echo must also hold on the TSIG paths
         cfg.keys = gen_keys(rng, &names);
     }
+    if matches!(prop, "c04" | "c05" | "c07" | "c09") && rng.chance(1, 3) {
+        // validly signed requests must be answered like unsigned ones (plus the TSIG record)
+        cfg.keys = gen_keys(rng, &names);
+    }
     let catalog = Arc::new(built.catalog.clone());
     let server = make_server(catalog, &cfg);
     let bufs = Buffers::roomy(cfg.payload, rng);
@@ -253,7 +257,11 @@ fn gen_request(rng: &mut Rng, sc: &Scenario, prop: &str) -> (Vec<u8>, &'static s
     if !sc.cfg.keys.is_empty() && rng.chance(1, 3) {
         let key = rng.pick(&sc.cfg.keys).clone();
         let mut o = SignOpts::at(now_unix());
-        match rng.below(8) {
+        // only C01-C03 judge requests with broken signatures; elsewhere a signed request is
+        // always valid and must be answered exactly like the unsigned one
+        let any_signature = matches!(prop, "c01" | "c02" | "c03");
+        let variant = if any_signature { rng.below(8) } else { 6 + rng.below(2) };
+        match variant {
             0 => o.time = now_unix().wrapping_sub(100_000),
             1 => o.corrupt_mac = true,
             2 => o.mac_len = Some(rng.below(40)),
@@ -272,12 +280,15 @@ fn gen_request(rng: &mut Rng, sc: &Scenario, prop: &str) -> (Vec<u8>, &'static s
             _ => {}
         }
         let (signed, _, _) = sign_request(&base, &key, &o);
+        if !any_signature {
+            return (signed, "tsig-valid");
+        }
         if rng.chance(hostile_share.0, hostile_share.1 * 2) {
             let mut v = signed.clone();
             mutate(rng, &mut v, &layout);
             return (v, "tsig-mutated");
         }
-        return (signed, "tsig");
+        return (signed, if variant >= 6 { "tsig-valid" } else { "tsig" });
     }
     if hostile_share.0 > 0 && rng.chance(hostile_share.0, hostile_share.1) {
         (gen_hostile(rng, &base, &layout), "hostile")
@@ -452,8 +463,10 @@ fn m05(exp: &Expected, m: &Msg) -> Result<(), (String, String)> {
 }
 
 /// C07 expectation from the statement.
-fn m07(p: &Classified, cat: &RefCatalog, m: &Msg) -> Result<Option<&'static str>, (String, String)> {
-    if p.stop != Stop::Clean || p.tsig.is_some() {
+fn m07(p: &Classified, cat: &RefCatalog, m: &Msg, signed_ok: bool) -> Result<Option<&'static str>, (String, String)> {
+    // a request with a TSIG record is judged only when the harness signed it validly
+    // (then it must be answered exactly like the unsigned request)
+    if p.stop != Stop::Clean || (p.tsig.is_some() && !signed_ok) {
         return Ok(None);
     }
     let h = p.header.as_ref().unwrap();
@@ -590,7 +603,19 @@ fn m04(p: &Classified, server_payload: u16, u: &[u8], t: &[u8]) -> Result<String
         return Ok(format!("tc:{}", limit));
     }
     if t.len() <= limit {
-        if u != t {
+        // signed responses: the TSIG records may differ in the time signed; compare the rest
+        let strip = |m: &Msg, b: &[u8]| -> Vec<u8> {
+            match m.tsig() {
+                Some(t) => {
+                    let mut v = b[..t.start].to_vec();
+                    let ar = u16::from_be_bytes([v[10], v[11]]).wrapping_sub(1);
+                    v[10..12].copy_from_slice(&ar.to_be_bytes());
+                    v
+                }
+                None => b.to_vec(),
+            }
+        };
+        if strip(&mu, u) != strip(&mt, t) || mu.tsig().is_some() != mt.tsig().is_some() {
             return Err(("differs-though-fits".into(), format!("complete response ({} octets) fits in {} but the UDP response differs", t.len(), limit)));
         }
         return Ok(format!("same:{}", limit));
@@ -790,6 +815,7 @@ pub fn run(ctx: &Ctx, rep: &mut Report, prop: &str) {
                 _ => rng.chance(1, 3),
             };
             let source = if prop == "c01" { random_source(&mut rng) } else { LOCALHOST };
+            let signed_ok = how == "tsig-valid";
             let p = classify(&req);
             rep.eval();
             rep.hist(&format!("request:{}", how));
@@ -857,7 +883,7 @@ pub fn run(ctx: &Ctx, rep: &mut Report, prop: &str) {
                     Err((sig, detail)) => rep.violation(format!("c03:{}", sig), format!("{} (request {})", detail, hex(&req)), wit(&sc, &req, tcp, &resp)),
                 },
                 "c04" => {
-                    if p.stop == Stop::NoResponse || p.tsig.is_some() {
+                    if p.stop == Stop::NoResponse || (p.tsig.is_some() && !signed_ok) {
                         continue;
                     }
                     let t = match handle(&sc.server, &req, source, true, &mut sc.bufs) {
@@ -903,7 +929,7 @@ pub fn run(ctx: &Ctx, rep: &mut Report, prop: &str) {
                         continue;
                     }
                     let r = match prop {
-                        "c07" => m07(&p, &sc.built.reference, m).map(|o| o.map(|s| s.to_string())),
+                        "c07" => m07(&p, &sc.built.reference, m, signed_ok).map(|o| o.map(|s| s.to_string())),
                         "c08" => m08(&p, m),
                         _ => m09(&p, sc.cfg.payload, m).map(Some),
                     };
@@ -942,7 +968,14 @@ fn run_c05(rep: &mut Report, rng: &mut Rng, sc: &mut Scenario) {
             if !tcp {
                 spec.additionals.push(opt_record(65535, 0, 0, 0, Vec::new()));
             }
-            let (req, _) = encode(&spec);
+            let (mut req, _) = encode(&spec);
+            if tcp && !sc.cfg.keys.is_empty() && rng.chance(1, 2) {
+                // a validly signed query gets the same answer (plus a TSIG record); over TCP only,
+                // because over UDP the space taken by the TSIG record may legitimately push
+                // optional additional records out (that is C04's subject)
+                let key = rng.pick(&sc.cfg.keys).clone();
+                req = sign_request(&req, &key, &SignOpts::at(now_unix())).0;
+            }
             let exp = respond(&sc.built.reference, &qn, qtype, qclass);
             rep.eval();
             if let Some(why) = &exp.unspecified {
@@ -1036,7 +1069,7 @@ pub fn run_single_zone(ctx: &Ctx, rep: &mut Report, prop: &str) {
                     if prop == "c07" {
                         if let Some(r) = &resp {
                             if let Ok(m) = m02(r) {
-                                match m07(&p, &reference, &m) {
+                                match m07(&p, &reference, &m, false) {
                                     Ok(Some(class)) => rep.class(&format!("single:{}:{}", class, response_class(&m))),
                                     Ok(None) => {}
                                     Err((sig, detail)) => rep.violation(format!("c07:single:{}", sig), format!("{} (request {})", detail, hex(&req)), wj),
